@@ -34,9 +34,10 @@ func init() {
 			return []Phase{{Name: "faults", Run: c07Faults, Crash: c07Crash}, {Name: "emfile", Run: c07Emfile}, {Name: "tls-stalled-handshakes", Run: c07TLSStalled},
 				// the panic faults once more on a server whose logger is switched off (what gldap does about a panic must
 				// not depend on whether anybody listens to its log)
-				{Name: "faults-silent-logger", Run: func(c *Ctx) { c07Silent = true; c07Faults(c) }, Crash: c07Crash}}
+				{Name: "faults-silent-logger", Run: func(c *Ctx) { c07Silent = true; c07Faults(c) }, Crash: c07Crash},
+				{Name: "panic-then-silent", Run: c07PanicThenSilent}}
 		},
-		MinObserved: []string{"faults_injected", "bystander_ops_verified", "bystander_ops_overlapping_or_after_a_fault", "new_connection_probes", "emfile_accept_failures_provoked", "probes_served_while_a_handshake_is_stalled", "mutated_frames_fed", "handler_panics_with_a_value_that_is_neither_string_nor_error", "abruptly_ended_connections_under_a_tight_descriptor_limit", "connections_upgraded_while_a_request_was_in_flight", "panic_faults_injected_on_a_server_whose_logger_is_off", "connections_failing_at_the_same_moment"},
+		MinObserved: []string{"faults_injected", "bystanders_served_while_the_faulty_client_stays_connected_and_silent", "bystander_ops_verified", "bystander_ops_overlapping_or_after_a_fault", "new_connection_probes", "emfile_accept_failures_provoked", "probes_served_while_a_handshake_is_stalled", "mutated_frames_fed", "handler_panics_with_a_value_that_is_neither_string_nor_error", "abruptly_ended_connections_under_a_tight_descriptor_limit", "connections_upgraded_while_a_request_was_in_flight", "panic_faults_injected_on_a_server_whose_logger_is_off", "connections_failing_at_the_same_moment"},
 	})
 }
 
@@ -59,6 +60,106 @@ type c07Case struct {
 }
 
 var c07Silent bool
+
+// c07LogLevel, when set, is the level of the logger the next c07Server gets.
+var c07LogLevel hclog.Level
+var c07LogText bool
+
+// c07PanicThenSilent: the client whose request made a handler panic neither hangs up nor says anything more - it just
+// stays there. Whatever the server's logger is set to (trace, debug, info, error, off), a connection that was open
+// before and a connection opened afterwards are served; the faulty client leaves only after they have been.
+func c07PanicThenSilent(c *Ctx) {
+	kinds := []string{"panic-bind", "panic-search", "panic-modify", "panic-add", "panic-delete", "panic-extended", "panic-default"}
+	levels := []hclog.Level{hclog.Debug, hclog.Trace, hclog.Info, hclog.Error, hclog.Off}
+	reps := c.N(1, 6)
+	levels = append(levels, levels...) // once with hclog's text format, once with JSON lines
+	for li, lvl := range levels {
+		c07LogLevel, c07LogText = lvl, li < len(levels)/2
+		srv, _, err := c07Server()
+		c07LogLevel = hclog.NoLevel
+		if err != nil {
+			c.Inconclusive("server start: " + err.Error())
+			return
+		}
+		failed := false
+		for rep := 0; rep < reps && !failed; rep++ {
+			for ki, kind := range kinds {
+				cs := map[string]any{"kind": kind, "placement": "faulty-client-stays-connected-and-silent", "logger_level": lvl.String(), "logger_text_format": c07LogText}
+				before, err := dialRaw(srv.Addr, nil)
+				if err != nil {
+					c.Violate("server stopped accepting connections", "dial: "+err.Error(), cs)
+					failed = true
+					break
+				}
+				before.Send(c07Search(1, "tag=1"))
+				before.ReadMsg(patience)
+				before.ReadMsg(patience)
+				faulty, err := dialRaw(srv.Addr, nil)
+				if err != nil {
+					before.Close()
+					c.Violate("server stopped accepting connections", "dial: "+err.Error(), cs)
+					failed = true
+					break
+				}
+				if (li+rep+ki)%2 == 1 {
+					faulty.Send(c07Search(50, "tag=2"))
+					faulty.ReadMsg(patience)
+					faulty.ReadMsg(patience)
+				}
+				faulty.Send(c07FaultFrame(kind, 100))
+				c.Count("faults_injected", 1)
+				c.Distinct("fault_placements", kind+"/faulty-client-stays-connected-and-silent/"+lvl.String())
+				time.Sleep(time.Duration(20+10*((rep+ki)%8)) * time.Millisecond)
+				// (the faulty client does not read, does not write, does not close)
+				ok := true
+				probe := func(cl *Client, what string, id int64) {
+					tag := int64(1000 + ki)
+					if err := cl.Send(c07Search(id, fmt.Sprintf("tag=%d", tag))); err != nil {
+						c.Violate("bystander operation failed", fmt.Sprintf("%s, while the client whose %s request made its handler panic stays connected and silent (logger level %s): send: %v", what, kind, lvl, err), cs)
+						ok = false
+						return
+					}
+					m, err := cl.ReadMsg(patience)
+					if err == nil {
+						var e *sber.Entry
+						if e, err = sber.AsEntry(m.Op); err == nil && (m.ID != id || len(e.Attrs) != 1 || string(e.Attrs[0].Vals[0]) != c07Payload(tag)) {
+							err = fmt.Errorf("wrong entry")
+						}
+					}
+					if err == nil {
+						_, err = cl.ReadMsg(patience)
+					}
+					if err != nil {
+						c.Violate("bystander operation failed", fmt.Sprintf("%s, while the client whose %s request made its handler panic stays connected and silent (logger level %s): %v", what, kind, lvl, err), cs)
+						ok = false
+						return
+					}
+					c.Count("bystander_ops_verified", 1)
+					c.Count("bystanders_served_while_the_faulty_client_stays_connected_and_silent", 1)
+				}
+				probe(before, "a connection opened before the fault", 2)
+				if ok {
+					after, err := dialRaw(srv.Addr, nil)
+					if err != nil {
+						c.Violate("server stopped accepting connections", fmt.Sprintf("dial while the faulty client stays connected (logger level %s): %v", lvl, err), cs)
+						ok = false
+					} else {
+						probe(after, "a connection opened after the fault", 1)
+						c.Count("new_connection_probes", 1)
+						after.Close()
+					}
+				}
+				before.Close()
+				faulty.Close()
+				if !ok {
+					failed = true
+					break
+				}
+			}
+		}
+		srv.StopWithin(patience)
+	}
+}
 
 func c07Cases(c *Ctx) []c07Case {
 	var out []c07Case
@@ -93,6 +194,9 @@ func c07Server() (*Srv, *sync.WaitGroup, error) {
 	scfg := SrvCfg{}
 	if c07Silent {
 		scfg.LogLevel = hclog.Off
+	}
+	if c07LogLevel != hclog.NoLevel {
+		scfg.LogLevel, scfg.LogText = c07LogLevel, c07LogText
 	}
 	srv, err := startSrv(scfg, func(m *gldap.Mux) {
 		m.Bind(func(w *gldap.ResponseWriter, r *gldap.Request) {
